@@ -22,8 +22,8 @@ func init() {
 	Register(&Rule{
 		ID:    "R-SCRATCH",
 		Doc:   "in every container loop of the json/thrift decoders, each loop-invariant decode destination (address-taken local, reflect.Value created before the loop) passed to a decode function is reset inside the loop (a store to the local / reflect.Value.Set with a loop-invariant zero)",
-		Props: []string{"C02", "C04"},
-		Min:   map[string]int{"C02": 8, "C04": 2},
+		Props: []string{"C02", "C04", "C01"},
+		Min:   map[string]int{"C02": 8, "C04": 2, "C01": 1},
 		Run:   runScratch,
 	})
 	Register(&Rule{
@@ -221,6 +221,69 @@ func runScratch(c *core.Ctx) []core.Obligation {
 			}
 		}
 	}
+	// a bytes.Buffer kept in the receiver and handed to an appending function is emptied (Reset) or
+	// freshly allocated on every path before it is written again
+	for _, fn := range c.RepoFunctions() {
+		if fn.Blocks == nil || fn.Synthetic != "" || fn.Signature.Recv() == nil || !strings.HasPrefix(shortName(fn), "json.") {
+			continue
+		}
+		isBufferField := func(v ssa.Value) (string, bool) {
+			f, ok := fieldOfLoad(v)
+			if !ok {
+				return "", false
+			}
+			if pt, ok := v.Type().(*types.Pointer); ok && strings.HasSuffix(types.TypeString(pt.Elem(), nil), "bytes.Buffer") {
+				return f, true
+			}
+			return "", false
+		}
+		k := 0
+		for _, ci := range callsIn(fn) {
+			cc := ci.Common()
+			callee := calleeName(cc)
+			// destinations: first argument of Indent/Compact/HTMLEscape-style functions
+			if len(cc.Args) == 0 || !(strings.HasSuffix(callee, ".Indent") || strings.HasSuffix(callee, ".Compact") || strings.HasSuffix(callee, ".HTMLEscape")) {
+				continue
+			}
+			field, ok := isBufferField(cc.Args[0])
+			if !ok {
+				continue
+			}
+			k++
+			key := fmt.Sprintf("buffer-reset:%s:%s", shortName(fn), field)
+			// every path to the call passes a Reset() on the same field or a store of a new buffer
+			fresh := map[*ssa.BasicBlock]bool{}
+			for _, blk := range fn.Blocks {
+				for _, in := range blk.Instrs {
+					switch x := in.(type) {
+					case *ssa.Call:
+						if calleeName(x.Common()) == "(*bytes.Buffer).Reset" && len(x.Common().Args) == 1 {
+							if f2, ok := isBufferField(x.Common().Args[0]); ok && f2 == field {
+								fresh[blk] = true
+							}
+						}
+					case *ssa.Store:
+						if fa, ok := x.Addr.(*ssa.FieldAddr); ok && fieldAddrID(fa) == field {
+							if al, isNew := x.Val.(*ssa.Alloc); isNew && al.Heap {
+								fresh[blk] = true
+							}
+						}
+					}
+				}
+			}
+			// reachability from entry to the call block avoiding fresh blocks
+			reach := reachableFrom(fn.Blocks[0], fresh)
+			if fresh[ci.Block()] {
+				reach[ci.Block()] = false
+			}
+			if reach[ci.Block()] {
+				b.addP([]string{"C01"}, core.Violation, key, c.InstrPos(ci), fmt.Sprintf("%s appends into the buffer it keeps in %s on a path where the buffer was neither Reset nor newly allocated: the second call writes the previous documents again in front of the current one", shortName(fn), field))
+			} else {
+				b.addP([]string{"C01"}, core.Discharged, key, c.InstrPos(ci), "the kept buffer is emptied or freshly allocated on every path before it is appended to")
+			}
+		}
+	}
+
 	// fixed-size arrays: when the input closes the array early, the elements it did not provide are
 	// set to zero (encoding/json does; a pre-populated target must not keep its tail)
 	if fn := c.Lookup("json.(decoder).decodeArray"); fn != nil {
